@@ -168,7 +168,7 @@ def obligations(tier: str) -> List[Obligation]:
     obs = []
     for ev in shapes:
         shape = {'events': ev}
-        obs.append(Obligation('history[' + ' | '.join(ev) + ']', make(shape), 'history', shape, timeout=100 if tier == 'quick' else 400))
+        obs.append(Obligation('history[' + ' | '.join(ev) + ']', make(shape), 'history', shape, timeout=100 if tier == 'quick' else 900))
     return obs
 
 
